@@ -346,6 +346,19 @@ func (r *Run) Step(op Op) StepObs {
 		res = w.Exec(sender, "update_blobber_settings", stg.J(m), 0, now)
 		model = vh.App("OpUpdBlobber", S, vh.Z(int64(op.B)), zopt(op.Cp != 0, op.Cp), zopt(op.W > 0, op.W-1), zopt(op.R > 0, op.R-1), na)
 
+	case "settings":
+		// update_settings of storagesc.time_unit (owner only); saved at once after demeter, else pending
+		res = w.Exec(sender, "update_settings", stg.J(stg.M{"fields": stg.M{"time_unit": fmt.Sprintf("%ds", op.N)}}), 0, now)
+		model = "(OpGenChal None)" // the settings transaction itself is not modelled; its effect is an event
+		if !res.OK {
+			model = "OpBad"
+		}
+	case "commitsettings":
+		res = w.Exec(sender, "commit_settings_changes", stg.J(stg.M{}), 0, now)
+		model = "(OpGenChal None)"
+		if !res.OK {
+			model = "OpBad"
+		}
 	case "addassigner":
 		ak := refKey(op.C)
 		res = w.Exec(sender, "add_free_storage_assigner", stg.AddAssignerInput(ak.ID, ak.PK, op.F, op.G), 0, now)
